@@ -965,4 +965,185 @@ theorem dearmor_calls_cur_total (steps : List (Bool × Bool)) (h : Gen.fixD4g = 
   · rename_i hf
     exact dearmor_calls_total_partial steps (h.resolve_left hf) _ (by simp)
 
+/-! ## every encrypted container × every session key (kind, algorithm octet, length) -/
+
+theorem cfb_new_total (sym keyLen : Nat) : cfbNew sym keyLen ≠ .panic := by
+  unfold cfbNew; split <;> simp
+
+theorem sed_admit_total (legacy : Bool) (sk : SkKind) (keyLen : Nat) : sedAdmit legacy sk keyLen ≠ .panic := by
+  unfold sedAdmit
+  split
+  · simp
+  · split
+    · exact cfb_new_total _ _
+    · simp
+
+theorem seipd1_admit_total (sk : SkKind) (keyLen : Nat) : seipd1Admit sk keyLen ≠ .panic := by
+  unfold seipd1Admit
+  split
+  · exact cfb_new_total _ _
+  · simp
+
+theorem seipd2_admit_sk_total (sym aead cs : Nat) (sk : SkKind) (keyLen : Nat) :
+    seipd2AdmitSk sym aead cs sk keyLen ≠ .panic := by
+  unfold seipd2AdmitSk
+  split
+  · exact seipd2_admit_total _ _ _ _
+  · simp
+
+/-- what an admitted GnuPG-AEAD key looks like: it has the cipher's key size, and the nonce is the
+packet's IV size -/
+theorem gnupg_admit_ok (optIn : Bool) (sym aead : Nat) (sk : SkKind) (keyLen k n : Nat)
+    (h : gnupgAdmit optIn sym aead sk keyLen = .ok (k, n)) :
+    k = symKeySize sym ∧ n = aeadIvSize aead := by
+  unfold gnupgAdmit at h
+  split at h
+  · simp at h
+  · obtain ⟨_, _, h⟩ := (bind_eq_ok _ _ _).mp h
+    obtain ⟨_, hl, h⟩ := (bind_eq_ok _ _ _).mp h
+    rw [ensure_eq_ok] at hl
+    unfold gnupgNew at h
+    split at h
+    · simp at h
+    · simp at h
+      simp at hl
+      omega
+
+theorem gnupg_admit_total (optIn : Bool) (sym aead : Nat) (sk : SkKind) (keyLen : Nat) :
+    gnupgAdmit optIn sym aead sk keyLen ≠ .panic := by
+  unfold gnupgAdmit
+  split
+  · simp
+  · rw [bind_ne_panic]
+    constructor
+    · unfold gnupgSkCheck; cases sk <;> simp
+    · intro _ _
+      chk_simp
+      intro _ _
+      unfold gnupgNew
+      split <;> simp
+
+/-- GnuPG AEAD (tag 20): opt-in or not, every cipher and AEAD octet, every kind and length of
+session key, whatever the primitive answers -/
+theorem gnupg_open_total (optIn : Bool) (sym aead : Nat) (sk : SkKind) (keyLen : Nat) (o : Option Bytes) :
+    gnupgOpen optIn sym aead sk keyLen o ≠ .panic := by
+  unfold gnupgOpen gnupgOpenWith
+  rw [bind_ne_panic]
+  refine ⟨gnupg_admit_total _ _ _ _ _, ?_⟩
+  rintro ⟨k, n⟩ h
+  obtain ⟨rfl, rfl⟩ := gnupg_admit_ok _ _ _ _ _ _ _ h
+  simp only []
+  rw [aeadIv_eq_nonce]
+  exact aead_decrypt_in_place_total _ _ _ _ (Nat.le_refl _)
+
+/-- regression witness: trusting the ESK layer for a v3/v4 key's length panics for AES-256 named
+next to a 16-octet key (X25519 v3 PKESK) -/
+theorem gnupg_open_trusting_esk_panics :
+    gnupgOpenWith gnupgAdmitTrustingEsk true 9 2 (.v34 9) 16 none = .panic := by decide
+
+/-! ## RSA signature value of any length against a modulus of any size -/
+
+theorem rsa_verify_pad_total (keySize sigLen : Nat) : rsaVerifyPad keySize sigLen ≠ .panic := by
+  unfold rsaVerifyPad
+  split
+  · chk_simp
+    refine ⟨by omega, ?_⟩
+    rintro d ⟨_, rfl⟩
+    refine ⟨⟨by omega, Nat.le_refl _⟩, ?_⟩
+    rintro dst ⟨_, rfl⟩
+    omega
+  · simp
+
+theorem rsa_verify_total (keySize sigLen : Nat) (valid : Bool) : rsaVerify keySize sigLen valid ≠ .panic := by
+  unfold rsaVerify
+  rw [bind_ne_panic]
+  exact ⟨rsa_verify_pad_total _ _, fun _ _ => ensure_ne_panic _⟩
+
+/-- regression witness: unconditional padding panics for a value one octet longer than the modulus -/
+theorem rsa_verify_pad_always_panics : rsaVerifyPadAlways 256 257 = .panic := by decide
+
+/-- … and for every longer one -/
+theorem rsa_verify_pad_always_panics_all (keySize sigLen : Nat) (h : keySize < sigLen) :
+    rsaVerifyPadAlways keySize sigLen = .panic := by
+  unfold rsaVerifyPadAlways
+  have h0 : keySize - sigLen = 0 := by omega
+  have h1 : ¬ (keySize = sigLen) := by omega
+  simp [h0, chkRange, copyLen, h1]
+
+/-! ## `LiteralDataReader` polled again after an error (D4h, repaired in the tree) -/
+
+/-- guarded form for the pre-repair definition: as long as no fill has failed it never panics -/
+theorem lit_calls_prefix_total_partial (steps : List (Bool × Bool × Bool)) (h : ∀ s ∈ steps, s.2.1 = true) :
+    ∀ st, st ≠ .error → litCalls litFillInnerPreFix st steps ≠ .panic := by
+  induction steps with
+  | nil => intro st _; simp [litCalls]
+  | cons s rest ih =>
+    intro st hst
+    obtain ⟨e, f, sh⟩ := s
+    have hf : f = true := h (e, f, sh) (by simp)
+    subst hf
+    have hr : ∀ s ∈ rest, s.2.1 = true := fun s hs => h s (by simp [hs])
+    cases st <;> cases e <;> cases sh <;>
+      simp [litCalls, litFillInnerPreFix, litIsDone] at hst ⊢ <;> exact ih hr _ (by simp)
+
+/-- regression witness (the replay `cb 64 62 00 00 00 00 00 'abcd'`: first read fails, second panics) -/
+theorem lit_prefix_panics_when_polled_after_error :
+    litCalls litFillInnerPreFix .body [(true, false, false), (true, true, false)] = .panic := by decide
+
+/-- the repaired `fill_inner`: every sequence of calls, every outcome of every fill -/
+theorem lit_calls_total (steps : List (Bool × Bool × Bool)) :
+    ∀ st, litCalls litFillInner st steps ≠ .panic := by
+  induction steps with
+  | nil => intro st; simp [litCalls]
+  | cons s rest ih =>
+    intro st
+    obtain ⟨e, f, sh⟩ := s
+    cases st <;> cases e <;> cases f <;> cases sh <;>
+      simp [litCalls, litFillInner, litFillInnerPreFix, litIsDone] <;> exact ih _
+
+theorem lit_calls_cur_total (steps : List (Bool × Bool × Bool))
+    (h : Gen.fixD4h = 1 ∨ ∀ s ∈ steps, s.2.1 = true) :
+    litCalls litFillInnerCur .body steps ≠ .panic := by
+  have hfun : litFillInnerCur = if Gen.fixD4h = 1 then litFillInner else litFillInnerPreFix := by
+    funext st a b c; unfold litFillInnerCur; split <;> rfl
+  rw [hfun]
+  split
+  · exact lit_calls_total steps _
+  · rename_i hf
+    exact lit_calls_prefix_total_partial steps (h.resolve_left hf) _ (by simp)
+
+/-- the accessor still panics in the `Error` state (open finding D4i) -/
+theorem lit_is_done_panics_in_error_state : litIsDone .error true = .panic := by decide
+
+/-! ## signature values of any shape in front of the public-key primitive -/
+
+theorem field_pad2_total (flen rLen sLen : Nat) : fieldPad2 flen rLen sLen ≠ .panic := by
+  unfold fieldPad2
+  chk_simp
+  intro _ hr _ hs
+  refine ⟨hr, ?_⟩
+  rintro a ⟨_, rfl⟩
+  refine ⟨⟨by omega, by omega⟩, ?_⟩
+  rintro d ⟨_, rfl⟩
+  refine ⟨by omega, fun _ _ => ⟨hs, ?_⟩⟩
+  rintro b ⟨_, rfl⟩
+  refine ⟨⟨by omega, Nat.le_refl _⟩, ?_⟩
+  rintro d2 ⟨_, rfl⟩
+  omega
+
+/-- regression witness: without the length guards a 33-octet `r` against a 32-octet field panics -/
+theorem field_pad2_unguarded_panics : fieldPad2Unguarded 32 33 32 = .panic := by decide
+
+/-- every algorithm family, every representation, every number and length of MPIs / blob length -/
+theorem sig_shape_total (alg : SigAlg) (unit : Nat) (native : Bool) (lens : List Nat) (valid : Bool) :
+    sigShape alg unit native lens valid ≠ .panic := by
+  unfold sigShape
+  split
+  · exact rsa_verify_total _ _ _
+  · rw [bind_ne_panic]
+    exact ⟨field_pad2_total _ _ _, fun _ _ => ensure_ne_panic _⟩
+  · exact ensure_ne_panic _
+  · chk_simp
+  · simp
+
 end Rpgp.C04
